@@ -34,6 +34,10 @@ NESTED_KEYS = ('feature_configs', 'regularizer_configs', 'reflects_trust_in',
 
 
 def run(prog, res):
+  from ..rules import hashkeys
+  for q in ('lattice_lib.project_by_dykstra', 'lattice_lib._approximately_project_trapezoid'):
+    hashkeys.check_function(prog, res, prog.function(q))
+  res.floor('T4', 8)
   n_classes = 0
   config_base = prog.cls('configs._Config')
   for c in sorted(prog.all_classes(), key=lambda c: c.qualname):
